@@ -150,16 +150,15 @@ Proof. intros l d _ H. left. exact H. Qed.
 Lemma wst_done x f p own : wst hash x f p true own -> content_fact hash x f.
 Proof. intros H. inversion H; try discriminate; assumption. Qed.
 
-Lemma PInvW_index ws f0 pl f :
+Lemma PInvWd_index ws f0 done pl f :
   IndexInv f0 -> Forall (fun x => wf_rec hash (hop_rec (x_hop hash x))) ws ->
-  PInvW hash ws f0 (pl, f) ->
-  IndexInv f /\
-  exists done,
+  PInvWd hash ws f0 done (pl, f) ->
+  IndexInv f /\ NoDup done /\
     (forall i, In i done -> (i < List.length ws)%nat /\ content_fact hash (nth i ws dw) f) /\
     forall k, abs_idx hash f k = fold_left spec_step (hops_of (map (x_hop hash) ws) done) (abs_idx hash f0) k.
 Proof.
-  intros Hinv0 Hwf [done [owns [Hnd [Hlt [Hlen [Hlo [Hst [Hdist [Hi [Hc [Ht Hb]]]]]]]]]]].
-  split; [exact Hi|]. exists done. split.
+  intros Hinv0 Hwf [owns [Hnd [Hlt [Hlen [Hlo [Hst [Hdist [Hi [Hc [Ht Hb]]]]]]]]]].
+  split; [exact Hi|]. split; [exact Hnd|]. split.
   { intros i Hin. split; [exact (Hlt i Hin)|]. pose proof (Hst i (Hlt i Hin)) as H.
     assert (member i done = true) as E by (apply member_spec; exact Hin). rewrite E in H. exact (wst_done _ _ _ _ H). }
   set (hs := hops_of (map (x_hop hash) ws) done).
@@ -179,6 +178,18 @@ Proof.
   rewrite <- Hf'. unfold abs_idx, bucket_bytes.
   pose proof (Hbk (bucket_path hash k)) as Hk. unfold bucket_at in Hk. rewrite Hk; [reflexivity|].
   destruct (bucket_path_shape hash k) as [a [b [c E]]]. exists a, b, c. exact E.
+Qed.
+
+Lemma PInvW_index ws f0 pl f :
+  IndexInv f0 -> Forall (fun x => wf_rec hash (hop_rec (x_hop hash x))) ws ->
+  PInvW hash ws f0 (pl, f) ->
+  IndexInv f /\
+  exists done,
+    (forall i, In i done -> (i < List.length ws)%nat /\ content_fact hash (nth i ws dw) f) /\
+    forall k, abs_idx hash f k = fold_left spec_step (hops_of (map (x_hop hash) ws) done) (abs_idx hash f0) k.
+Proof.
+  intros Hinv0 Hwf [done Hd]. destruct (PInvWd_index ws f0 done pl f Hinv0 Hwf Hd) as [Hi [_ [H1 H2]]].
+  split; [exact Hi|]. exists done. split; [exact H1|exact H2].
 Qed.
 
 Lemma spec_fold_entry_key hs m k e :
